@@ -3,7 +3,7 @@
 //! two integers, list of accepted variants); the reduced form is judged by TLC.
 
 use serde_json::{Value, json};
-use squitterator::{Plane, get_downlink_format, get_icao, get_message};
+use squitterator::{DF, Downlink, Plane, get_downlink_format, get_icao, get_message};
 use std::fs::File;
 use std::io::{BufWriter, Write};
 use std::panic::{AssertUnwindSafe, catch_unwind};
@@ -117,16 +117,35 @@ pub fn icao_sweep(spec: &str, out: &str) -> Result<(), String> {
 
 /// Run-length encoding of `row.reg` of a row created (public constructor) for every address.
 pub fn country(out: &str) -> Result<(), String> {
+    let mut w = BufWriter::new(File::create(out).map_err(|e| e.to_string())?);
+    // both public constructors: from_message, and from_downlink (the one the reader uses) with a decoded DF18 frame,
+    // a format for which the decoded downlink carries no address of its own
+    for (idx, ctor) in ["from_message", "from_downlink"].iter().enumerate() {
+        let ev = country_pass(idx == 1)?;
+        let ev = json!({"e": "country", "i": idx + 1, "n": N24, "ctor": ctor, "runs": ev});
+        serde_json::to_writer(&mut w, &ev).map_err(|e| e.to_string())?;
+        w.write_all(b"\n").map_err(|e| e.to_string())?;
+    }
+    w.flush().map_err(|e| e.to_string())
+}
+
+fn country_pass(via_downlink: bool) -> Result<Vec<Value>, String> {
     let msg: Vec<u32> = vec![5, 13, 0, 0, 0, 0, 0, 0, 0, 0, 0, 0, 0, 0]; // DF11 shape; content irrelevant
+    let msg18: Vec<u32> = vec![9, 0, 4, 8, 4, 0, 13, 6, 2, 0, 2, 12, 12, 3, 7, 1, 12, 3, 2, 12, 14, 0, 5, 7, 6, 0, 9, 8];
     let mut hs = vec![];
     for t in 0..THREADS {
         let msg = msg.clone();
+        let msg18 = msg18.clone();
         hs.push(thread::spawn(move || {
             let mut runs: Vec<(u32, u32, &'static str)> = vec![];
             let lo = (N24 / THREADS) * t;
             let hi = (N24 / THREADS) * (t + 1);
+            let dl = DF::from_message(&msg18).ok();
             for a in lo..hi {
-                let p = Plane::from_message(&msg, 11, a, false);
+                let p = match (&dl, via_downlink) {
+                    (Some(d), true) => Plane::from_downlink(d, a),
+                    _ => Plane::from_message(&msg, 11, a, false),
+                };
                 match runs.last_mut() {
                     Some(l) if l.2 == p.reg && l.1 + 1 == a => l.1 = a,
                     _ => runs.push((a, a, p.reg)),
@@ -147,14 +166,7 @@ pub fn country(out: &str) -> Result<(), String> {
             merged.push(r);
         }
     }
-    let mut w = BufWriter::new(File::create(out).map_err(|e| e.to_string())?);
-    let ev = json!({
-        "e": "country", "i": 1, "n": N24,
-        "runs": merged.iter().map(|r| json!({"lo": r.0, "hi": r.1, "reg": r.2})).collect::<Vec<_>>(),
-    });
-    serde_json::to_writer(&mut w, &ev).map_err(|e| e.to_string())?;
-    w.write_all(b"\n").map_err(|e| e.to_string())?;
-    w.flush().map_err(|e| e.to_string())
+    Ok(merged.iter().map(|r| json!({"lo": r.0, "hi": r.1, "reg": r.2})).collect::<Vec<_>>())
 }
 
 /// Burst sweep for C04: for a base squitter (hex text), every burst error pattern of length
